@@ -158,6 +158,9 @@ func main() {
 				}
 				for f := range d.K {
 					d.K[f] = []sq.Term{sq.Vocab[r.Intn(3)]}
+					if r.Intn(8) == 0 {
+						d.K[f] = []sq.Term{{}} // the empty string: a value, and the smallest one
+					}
 				}
 				docs[d.ID] = *d
 			}
@@ -264,9 +267,32 @@ func main() {
 				for _, s := range ks {
 					order = append(order, map[string]bool{"desc": s.Desc, "mfirst": s.MFirst})
 				}
+				// known finding (D17): with ascending + missing-first (or descending + missing-last) on a text key, documents
+				// whose value is the empty string are placed on the wrong side of the documents that lack the field
+				// (the low "missing" sentinel {0x00} sorts above ""); such calls are marked
+				scn := ""
+				for _, sp := range ks {
+					if sp.Field == "k1" && sp.Desc != sp.MFirst {
+						hasEmpty, hasMissing := false, false
+						for _, m := range base {
+							if kv := docs[m.id].K["k1"]; len(kv) == 0 {
+								hasMissing = true
+							} else if len(kv[0]) == 0 {
+								hasEmpty = true
+							}
+						}
+						if hasEmpty && hasMissing {
+							scn = "empty-string-vs-missing"
+						}
+					}
+				}
 				common := func(ev string) map[string]any {
 					nq++
-					return map[string]any{"ev": ev, "hits": hits, "order": order, "keys": ks}
+					e := map[string]any{"ev": ev, "hits": hits, "order": order, "keys": ks}
+					if scn != "" {
+						e["scn"] = scn
+					}
+					return e
 				}
 				// full ranking with real sort values (for after/before keys)
 				full, ferr := run(rd, mkReq(len(base)+5, mk(), ks, def))
